@@ -1394,7 +1394,7 @@ def empty_slot_skipped(ctx, key, body, desc, rule='K2-loop-order'):
         sw = t.get('t')
         if sw is None or body.term(sw)['k'] != 'switch' or body.term(sw)['vals'] != [0]:
             continue
-        inner = [lp for lp in loops if bi in body.reachable_from([lp['some']], removed={lp['head']})]
+        inner = [lp for lp in loops if bi in body.reachable_from([lp['some']], removed={lp['head']}) and body.dominates(lp['head'], bi)]     # (a loop further down in the body of the page loop reaches the test again, but does not contain it)
         if not inner:
             continue
         # innermost: the loop whose head lies inside the most other candidate loops
